@@ -13,14 +13,14 @@ package protocol
 //@   ensures[* total] !opts(opt).Err ==> err == nil
 //@   ensures[* base] err == nil ==> ret != nil && ret.Conn == base
 //@   ensures[C16 state] err == nil ==> ret != nil && ret.clientState == opts(opt).WithState && ret.Conn == base
-//@   ensures[C16 copy] err == nil ==> seqEq(ret.clientNextProtos, opts(opt).WithExtraAlpnProtos)
+//@   ensures[C16,C17 copy] err == nil ==> seqEq(ret.clientNextProtos, opts(opt).WithExtraAlpnProtos)
 //@   |   && (opts(opt).WithExtraAlpnProtos == nil <==> ret.clientNextProtos == nil)
 //@   |   && (len(opts(opt).WithExtraAlpnProtos) > 0 ==> fresh(ret.clientNextProtos))
 
 //@ func protocol.(*Conn).ClientNextProtos
 //@   nopanic[C14,C16]
-//@   ensures[C16 nilrecv] c == nil ==> ret == nil
-//@   ensures[C16 copy] c != nil ==> seqEq(ret, c.clientNextProtos) && (c.clientNextProtos == nil <==> ret == nil)
+//@   ensures[C16,C17 nilrecv] c == nil ==> ret == nil
+//@   ensures[C16,C17 copy] c != nil ==> seqEq(ret, c.clientNextProtos) && (c.clientNextProtos == nil <==> ret == nil)
 //@   |   && (len(ret) > 0 ==> fresh(ret))
 
 //@ func protocol.(*Conn).ClientState
@@ -43,8 +43,8 @@ package protocol
 //@   requires hello != nil && l != nil && clientInfo != nil
 //@   requires[inv] cap(l.options) == len(l.options)
 //@   nopanic[C14]
-//@   ensures[C16 protocount] len(S) > 0 ==> len(clientInfo.nextProtos) == len(S) - cnt(row(S), off(S), len(S), P)
-//@   ensures[C16 protos] len(S) > 0 ==> forall j int :: 0 <= j && j < len(S) && !isPref(S[j]) ==>
+//@   ensures[C16,C17 protocount] len(S) > 0 ==> len(clientInfo.nextProtos) == len(S) - cnt(row(S), off(S), len(S), P)
+//@   ensures[C16,C17 protos] len(S) > 0 ==> forall j int :: 0 <= j && j < len(S) && !isPref(S[j]) ==>
 //@   |   clientInfo.nextProtos[j - cnt(row(S), off(S), j, P)] == S[j]
 //@   loop 0 invariant[shape] fresh(trimmedProtos) && 0 <= rangeindex + 1 && rangeindex + 1 <= len(S)
 //@   |   && len(trimmedProtos) == rangeindex + 1 - cnt(row(S), off(S), rangeindex + 1, P) && 0 <= cnt(row(S), off(S), rangeindex + 1, P)
@@ -75,7 +75,21 @@ package protocol
 //@   ensures[C14 failclosed] retErr != nil ==> IsNil(conn)
 //@   ensures[C02,C17 nofetch] retErr == nil ==> !IsNil(conn) && dynIs(conn, "protocol.Conn") && as(conn, "protocol.Conn") != nil
 //@   |   && !hasPrefix(negProto(as(conn, "protocol.Conn").Conn), FetchNodeCredsNextProtoV1Prefix)
-//@   call protocol.NewConn assert[C16 meta] opts(arg1).WithState == clientInfo.clientState && opts(arg1).WithExtraAlpnProtos == clientInfo.nextProtos
+//@   call protocol.NewConn assert[C16,C17 meta] opts(arg1).WithState == clientInfo.clientState && opts(arg1).WithExtraAlpnProtos == clientInfo.nextProtos
 //@   call protocol.(*InterceptingListener).getTlsConfigForClient assert[C15 freshinfo] fresh(arg1)
 //@   loop 0 invariant[accepting] true
 //@   modifies St
+
+// ---------------------------------------------------------------- dialer.go (C07, C12)
+//
+// Dial itself is network I/O around crypto/tls (opaque). What is specified: it fails closed, the TLS
+// configurations it tries are the ones ClientConfigs builds from the credentials loaded from the node's
+// storage, and the caller's options (storage wrapper) reach every load and store of those credentials.
+//@ func protocol.Dial
+//@   ensures[C07 failclosed] err != nil ==> ret == nil
+//@   call types.LoadNodeCredentials assert[C07,C12 optspassedload] arg1 == storage && opts(arg3).WithStorageWrapper == opts(opt).WithStorageWrapper
+//@   call types.(*NodeCredentials).HandleFetchNodeCredentialsResponse assert[C07,C12 optspassedstore] arg0 == creds && arg2 == storage
+//@   |   && opts(arg4).WithStorageWrapper == opts(opt).WithStorageWrapper
+//@   call tls.ClientConfigs assert[C07 storedcreds] arg1 == creds && creds != nil
+//@   loop 0 invariant[tries] true
+//@   modifies St -- (the handshake model havocs ghost storage: it is the same specification the server side uses)
